@@ -674,7 +674,7 @@ def d1(
         raise ValueError("all elements in time_to_maturity have to be non-negative")
     if not (v >= 0).all():
         raise ValueError("all elements in volatility have to be non-negative")
-    variance = v * t.sqrt()
+    variance = (v * t.sqrt()).abs()  # abs: -0.0 is zero
     output = s / variance + variance / 2
     # TODO(simaki): Replace zeros_like with 0.0 once https://github.com/pytorch/pytorch/pull/62084 is merged
     return output.where((s != 0).logical_or(variance != 0), torch.zeros_like(output))
@@ -711,7 +711,7 @@ def d2(
         raise ValueError("all elements in time_to_maturity have to be non-negative")
     if not (v >= 0).all():
         raise ValueError("all elements in volatility have to be non-negative")
-    variance = v * t.sqrt()
+    variance = (v * t.sqrt()).abs()  # abs: -0.0 is zero
     output = s / variance - variance / 2
     # TODO(simaki): Replace zeros_like with 0.0 once https://github.com/pytorch/pytorch/pull/62084 is merged
     return output.where((s != 0).logical_or(variance != 0), torch.zeros_like(output))
@@ -947,7 +947,7 @@ def bs_european_gamma(
     s, t, v = broadcast_all(log_moneyness, time_to_maturity, volatility)
     spot = strike * s.exp()
     numerator = npdf(d1(s, t, v))
-    denominator = spot * v * t.sqrt()
+    denominator = spot * (v * t.sqrt()).abs()
     output = numerator / denominator
     return torch.where(
         (numerator == 0).logical_and(denominator == 0), torch.zeros_like(output), output
@@ -982,7 +982,7 @@ def bs_european_theta(
     s, t, v = broadcast_all(log_moneyness, time_to_maturity, volatility)
     price = strike * s.exp()
     numerator = -npdf(d1(s, t, v)) * price * v
-    denominator = 2 * t.sqrt()
+    denominator = 2 * t.abs().sqrt()
     output = numerator / denominator
     return torch.where(
         (numerator == 0).logical_and(denominator == 0), torch.zeros_like(output), output
@@ -1023,7 +1023,7 @@ def bs_european_binary_delta(
     spot = s.exp() * strike
 
     numerator = npdf(d2(s, t, v))
-    denominator = spot * v * t.sqrt()
+    denominator = spot * (v * t.sqrt()).abs()
     delta = numerator / denominator
     delta = torch.where(
         (numerator == 0).logical_and(denominator == 0), torch.zeros_like(delta), delta
@@ -1048,7 +1048,7 @@ def bs_european_binary_gamma(
     spot = s.exp() * strike
 
     d2_tensor = d2(s, t, v)
-    w = v * t.sqrt()
+    w = (v * t.sqrt()).abs()
 
     gamma = -npdf(d2_tensor).div(w * spot.square()) * (1 + d2_tensor.div(w))
 
@@ -1139,7 +1139,7 @@ def bs_american_binary_delta(
 
     d1_tensor = d1(s, t, v)
     d2_tensor = d2(s, t, v)
-    w = v * t.sqrt()
+    w = (v * t.sqrt()).abs()
 
     p = (
         _div_zero_by_zero_is_zero(npdf(d2_tensor), spot * w)
@@ -1165,7 +1165,7 @@ def bs_american_binary_gamma(
 
     d1_tensor = d1(s, t, v)
     d2_tensor = d2(s, t, v)
-    w = v * t.sqrt()
+    w = (v * t.sqrt()).abs()
 
     p = (
         -npdf(d2_tensor).div(spot.square() * w)
@@ -1245,7 +1245,7 @@ def bs_lookback_price(
     m1 = d1(s - m, t, v)  # d' in the paper
     m2 = d2(s - m, t, v)
 
-    w = v * t.sqrt()
+    w = (v * t.sqrt()).abs()
     # w * (d * N(d) + n(d)) where w * d = x + w^2 / 2 for d = d1(x, t, v):
     # written without the product w * d, which is 0 * inf at maturity or at zero volatility
     term_0 = (s + w.square() / 2) * ncdf(d1_value) + w * npdf(d1_value)
@@ -1274,7 +1274,7 @@ def bs_lookback_delta(
         torch.as_tensor,
         (log_moneyness, max_log_moneyness, time_to_maturity, volatility),
     )
-    w = v * t.sqrt()
+    w = (v * t.sqrt()).abs()
     d1_value = d1(s, t, v)
     m1 = d1(s - m, t, v)
 
